@@ -109,6 +109,25 @@ Proof.
   - destruct (extend_spec p0 Hr0) as [->|(e & _ & _ & _ & ->)]; reflexivity.
 Qed.
 
+(* mi_page_init leaves a non-empty free list *)
+Lemma page_init_free bs psize z : 0 < bs -> bs <= psize -> psize / bs < 65536 -> free (page_init bs psize z) <> [].
+Proof.
+  intros Hb Hle Hr. unfold page_init. rewrite wrap16_small by exact Hr.
+  assert (H1 : 1 <= psize / bs) by (apply N.div_le_lower_bound; lia).
+  unfold page_extend. cbn [free reserved capacity].
+  destruct (psize / bs <=? 0) eqn:E; [apply N.leb_le in E; lia|].
+  unfold set_capacity, set_free. cbn [free].
+  set (p0 := {| bsize := bs; reserved := psize / bs; capacity := 0; Page.used := 0; free := []; local_free := [];
+                thread_free := []; free_is_zero := z; is_zero_init := z; has_aligned := false; retire_expire := 0 |}).
+  assert (He : 1 <= extend_count p0).
+  { unfold extend_count. cbn [p0 reserved capacity bsize]. rewrite N.sub_0_r. unfold MI_MIN_EXTEND, MI_MAX_EXTEND_SIZE.
+    set (mx0 := if 4096 <=? bs then 4 else 4096 / bs).
+    set (mx := if mx0 <? 4 then 4 else mx0).
+    assert (Hmx : 4 <= mx) by (unfold mx; destruct (mx0 <? 4) eqn:E4; [lia|apply N.ltb_ge in E4; assumption]).
+    destruct (mx <? psize / bs); lia. }
+  destruct (N.to_nat (extend_count p0)) as [|n] eqn:En; [lia|]. cbn [nseq app]. discriminate.
+Qed.
+
 (* mi_segments_page_alloc: a page of a normal segment has at most MI_MAX_SLICE_OFFSET_COUNT + 1 slices,
    so every slice of it carries a back-offset to the first one *)
 Lemma slices_needed_le bs : bs <= MI_LARGE_OBJ_SIZE_MAX -> slices_needed bs <= MI_MAX_SLICE_OFFSET_COUNT + 1.
